@@ -290,6 +290,6 @@ impl Prop for C15 {
         "cases are all combinations of kind, value, separator pair, digit count and language in the stated grids; each case evaluates a canonical line, feeds the printed form back as a new line under the same configuration and language and requires the same printed form again (purely differential); non-trivial = the canonical line produced a non-empty printed value; distinct = distinct (configuration, language, line)".into()
     }
     fn assumptions(&self) -> Vec<String> {
-        vec!["date-times, raw Unix timestamps, the empty output of a zero duration, currencies without symbol/alias and the thousands separator ' ' are outside the statement".into()]
+        vec!["date-times, raw Unix timestamps, the empty output of a zero duration, currencies that have no entry in config.json's currency_alias table (the table of input symbols and alias words: '$', '€', '₺', 'лв', 'tl', 'dollar' ...; a currency outside it prints with a symbol the reader does not map back - 'CAD' prints '$12,50', 'GBP' prints '£12,50') are read as outside the statement's 'currency that has a configured symbol or alias'".into()]
     }
 }
